@@ -98,6 +98,50 @@ def roundtrips(strs):
     return [r for r in map(roundtrip, strs) if r is not None]
 
 
+def context_variations():
+    """Every single boolean attribute of a fresh Context flipped (the flags a program can be run with end up there), plus the
+    default.  -> list of (name, {attr: value})"""
+    from vyxal.context import Context
+    base = Context()
+    out = [("default", {})]
+    for k, v in sorted(vars(base).items()):
+        if isinstance(v, bool) and k not in ("online", "online_mode", "use_top_input"):
+            out.append((f"{k}={not v}", {k: (not v)}))
+    return out
+
+
+def roundtrip_ctx(s):
+    """the quote element under every context variation: what it leaves must be the same text as under the default context, or at
+    least text that pushes s"""
+    from vyxal.context import Context
+    from vyxal.elements import quotify
+    bad = []
+    try:
+        q0 = quotify(s, Context())
+    except Exception:  # noqa: BLE001   (reported by roundtrip)
+        return []
+    for name, attrs in context_variations()[1:]:
+        ctx = Context()
+        for k, v in attrs.items():
+            setattr(ctx, k, v)
+        try:
+            q = quotify(s, ctx)
+            if q == q0:
+                continue
+            st = run_text(q, False)
+            if len(st) != 1 or type(st[0]) is not str or st[0] != s:
+                bad.append((s, "quote:context", f"with context {name} element q leaves {q!r}, which pushes {st!r}"))
+        except V.Timeout:
+            raise
+        except Exception as e:  # noqa: BLE001
+            bad.append((s, "quote:context", f"with context {name}: {type(e).__name__}: {str(e)[:80]}"))
+    return bad
+
+
+def roundtrips_ctx(strs):
+    return [b for x in strs for b in roundtrip_ctx(x)]
+
+
 def through_main(item):
     from vlib import runprog
     s, flags = item
@@ -355,6 +399,18 @@ def run(env):
             strings.append("".join(rng.choice(ESC) for _ in range(n)))
         else:
             strings.append("".join(rng.choice(ascii_chars + ["\\", "`", '"', "\\", "`"]) for _ in range(n)))
+    # long strings: a run of one escape-relevant character of every length 1..100 and at 128 / 257 / 1025, alone and between letters;
+    # long random strings over the escape-relevant set (where a line / literal width limit or a chunked copy would cut)
+    long_strings = []
+    run_lengths = list(range(1, 101)) + [127, 128, 129, 255, 256, 257, 1024, 1025]
+    for ch in ("\\", "`", '"', "\n", "'", "a", "λ"):
+        for n in (run_lengths if ch in "\\`\"\n" else run_lengths[::7]):
+            long_strings += [ch * n, "x" + ch * n + "y"]
+    for _ in range(env.budget(300, 3000)):
+        n = rng.choice([60, 79, 80, 81, 100, 158, 200, 400, 1000])
+        long_strings.append("".join(rng.choice(ESC + ["\\", "\\", "a"]) for _ in range(n)))
+    env.note("long_strings", {"count": len(long_strings), "run_lengths": "1..100, 127-129, 255-257, 1024, 1025", "random_lengths": "60..1000"})
+    strings += long_strings
     strings = list(dict.fromkeys(strings))
     n_plain = len(strings)
     dict_strings, dict_parts, dict_regex_only = dictionary_stream(env)
@@ -384,8 +440,19 @@ def run(env):
         for s, cls, what in val:
             counter[cls] = counter.get(cls, 0) + 1
             env.fail({"string": s}, what, cls=cls)
+    # the quote element under every context variation (each boolean attribute of the context flipped)
+    ctx_strings = strings[:n_esc] + rng.sample(strings[n_esc:], min(len(strings) - n_esc, env.budget(600, 6000)))
+    for st, val in V.pmap(roundtrips_ctx, chunks(ctx_strings, 200), timeout=300, procs=PROCS, chunksize=1):
+        if st != "ok":
+            env.fail({"kind": "worker"}, f"evaluation did not finish: {st} {val}")
+            continue
+        for s_, cls, what in val:
+            counter[cls] = counter.get(cls, 0) + 1
+            if counter[cls] <= 5:
+                env.fail({"string": s_}, what, cls=cls)
+    env.note("context_variations", {"variations": [n for n, _ in context_variations()], "strings": len(ctx_strings)})
     special = set('\\`"\n')
-    env.count(len(strings), (f"q:{s}" for s in strings if s in dict_parts or any(c in special or ord(c) > 126 for c in s)))
+    env.count(len(strings) + len(ctx_strings), (f"q:{s}" for s in strings if s in dict_parts or any(c in special or ord(c) > 126 for c in s)))
     env.note("strings_exhaustive_escape_set_len_le_3", n_esc)
     env.note("strings_exhaustive_codepage", n_cp)
     env.note("strings_random", n_plain - n_esc - n_cp)
